@@ -123,6 +123,13 @@ func genSqlCfg(r *rng, prop string, tier string) SqlCfg {
 	case "C09":
 		c.PRestart = 0.1
 		c.PCrashRestart = []float64{0, 0.03}[r.Intn(2)]
+		if r.Chance(0.5) {
+			// further work after a reopen includes DDL
+			for i := 0; i < 1+r.Intn(3); i++ {
+				c.LateTables = append(c.LateTables, TableSpec{Name: fmt.Sprintf("u%d", i), Cols: genCols(r, false), Wide: []int{6, 30, 120}[r.Intn(3)]})
+			}
+			c.PDDL = 0.08
+		}
 	case "C10":
 		n := 1 + r.Intn(4)
 		if r.Chance(0.1) {
